@@ -42,6 +42,8 @@ type lyPart struct {
 type lyOpts struct {
 	wellFormed bool // no mutation at all
 	big        bool // thorough tier: more and bigger
+	// symlinkDirs: move a directory of the layer and leave a symbolic link
+	symlinkDirs bool
 }
 
 type partGen struct {
@@ -1585,6 +1587,8 @@ type genLayer struct {
 	muts   []string
 	// jarInflated: see lyPart.
 	jarInflated uint64
+	// concurrent: also run all scanners at once and the real LayerScanner.Scan.
+	concurrent bool
 }
 
 func pickPart(r *hx.Rand) partGen {
@@ -1618,6 +1622,75 @@ func guardedMutateTar(r *hx.Rand, b []byte) (out []byte, how string) {
 		}
 	}()
 	return mutateTar(r, b)
+}
+
+// lyRelocate moves everything below one directory of the layer somewhere else
+// and leaves a symbolic link in the directory's place, the way usr-merged
+// images have lib -> usr/lib and newer rpm distributions var/lib/rpm ->
+// ../../usr/lib/sysimage/rpm: every scanner that opens a path by name then goes
+// through a link in directory position.
+func lyRelocate(r *hx.Rand, files []lyFile) ([]lyFile, string) {
+	var dirs []string
+	seen := map[string]bool{}
+	for _, f := range files {
+		parts := strings.Split(strings.Trim(f.name, "/"), "/")
+		for i := 1; i < len(parts); i++ {
+			d := strings.Join(parts[:i], "/")
+			if !seen[d] {
+				seen[d] = true
+				dirs = append(dirs, d)
+			}
+		}
+	}
+	if len(dirs) == 0 {
+		return files, ""
+	}
+	d := dirs[r.Intn(len(dirs))]
+	var target string
+	switch r.Intn(4) {
+	case 0:
+		target = "usr/" + d
+	case 1:
+		target = ".real/" + strings.ReplaceAll(d, "/", "_")
+	case 2:
+		target = "usr/lib/sysimage/" + d[strings.LastIndex(d, "/")+1:]
+	default:
+		target = d + ".d/x"
+	}
+	if target == d || strings.HasPrefix(d, target+"/") || strings.HasPrefix(target, d+"/") {
+		target = ".moved/" + strings.ReplaceAll(d, "/", "_")
+	}
+	out := make([]lyFile, 0, len(files)+2)
+	for _, f := range files {
+		if strings.HasPrefix(f.name, d+"/") {
+			f.name = target + f.name[len(d):]
+		} else if strings.TrimSuffix(f.name, "/") == d {
+			continue
+		}
+		out = append(out, f)
+	}
+	// the link text: relative (as many ".." as the link is deep), absolute, or
+	// through a second link
+	up := strings.Repeat("../", strings.Count(d, "/"))
+	link := lyFile{name: d, typ: tar.TypeSymlink, mode: 0o777}
+	how := "relative"
+	switch r.Intn(4) {
+	case 0:
+		link.link, how = "/"+target, "absolute"
+	case 1:
+		mid := ".via"
+		link.link = up + mid
+		out = append(out, lyFile{name: mid, typ: tar.TypeSymlink, mode: 0o777, link: target})
+		how = "two-hops"
+	default:
+		link.link = up + target
+	}
+	if r.Chance(1, 2) {
+		out = append([]lyFile{link}, out...)
+	} else {
+		out = append(out, link)
+	}
+	return out, "symlinked-dir-" + how
 }
 
 // genRandomLayer assembles 1-4 generated parts into a layer and sometimes
@@ -1664,6 +1737,15 @@ func genRandomLayer(r *hx.Rand, o lyOpts) genLayer {
 			files = append([]lyFile{f}, files...)
 		} else {
 			files = append(files, f)
+		}
+	}
+	if o.symlinkDirs || r.Chance(1, 6) {
+		for k, n := 0, 1+r.Intn(2); k < n; k++ {
+			var m string
+			if files, m = lyRelocate(r, files); m != "" {
+				g.muts = append(g.muts, "tar:"+m)
+				g.concurrent = true
+			}
 		}
 	}
 	if r.Chance(1, 8) && len(files) > 1 {
